@@ -247,6 +247,15 @@ def make_sourcecat(cfg):
         cy, cx = CENTRES[k]
         r2 = (4.5, 6.0, 2.0, 8.0, 1.0)[k]
         seg[((yy - cy) ** 2 + (xx - cx) ** 2 <= r2) & (seg == 0)] = labels[order[k]]
+    if cfg.get('nested') and n >= 2:
+        # a compact source sitting on a large neighbour: its local-background annulus lies wholly
+        # inside the neighbour's segment (no usable pixel: documented local background 0), and it
+        # comes after the neighbour in catalog order
+        two = sorted(labels[order[k]] for k in range(2))
+        seg[:] = 0
+        seg[3:13, 3:13] = two[0]
+        seg[7:9, 7:9] = two[1]
+        data = data + 0.7
     if cfg.get('thin') and n >= 2:
         # degenerate footprints: a one-row streak and a single pixel (cutouts of shape (1, W) and
         # (1, 1); Kron radius 0)
@@ -1025,6 +1034,8 @@ def configs(ctx):
          'labels': 'consecutive', 'thin': True},
         {'cls': 'SC', 'n': 2, 'seed': 19, 'wcs': False, 'error': False, 'bkg': False, 'extras': False,
          'labels': 'consecutive', 'thin': True, 'dark_sky': True},
+        {'cls': 'SC', 'n': 2, 'seed': 21, 'wcs': False, 'error': True, 'bkg': False, 'extras': False,
+         'labels': 'gaps', 'localbkg': 3, 'nested': True},
         # a minimum circular radius larger than every source: the Kron radius is 0 for all of them
         {'cls': 'SC', 'n': 3, 'seed': 20, 'wcs': False, 'error': True, 'bkg': False, 'extras': False,
          'labels': 'gaps', 'kron_params': [2.5, 1.4, 50.0]},
